@@ -192,7 +192,9 @@ def svgp_case(draw, strategies, dists=tuple(VO.DISTS), batch="mixed", modes=("ev
         # parameters carry the batch shape of p(u) - otherwise the parameters are written directly
         init = "flag"
     return {"d": d, "M": M, "n": n, "bp": bp, "model": model, "X": X, "xmode": xmode, "q": draw(VM.q_params(M, bp["vb"])),
-            "mode": draw(st.sampled_from(list(modes))), "init": init, "torch_seed": draw(st.integers(0, 2**31 - 1))}
+            "mode": draw(st.sampled_from(list(modes))), "init": init, "torch_seed": draw(st.integers(0, 2**31 - 1)),
+            # settings.trace_mode (the documented setting for torch.jit.trace of a variational GP): dense branch of the strategies
+            "trace": draw(st.integers(0, 3)) == 0}
 
 
 def encode_extras(draw, dist, M, vb):
@@ -277,7 +279,7 @@ def build_and_call(ctx, case, r, params_by_strategy, X, call_kwargs=None, want_c
     obs = {}
     with ctx.observing("forward", reject=reject, reject_match=reject_match):
         torch.manual_seed(case.get("torch_seed", 0))
-        with settings_cm:
+        with settings_cm, S.trace_mode(bool(case.get("trace"))):
             out = model(X, **call_kwargs)
             obs["mean"] = out.mean
             obs["variance"] = out.variance
@@ -346,7 +348,8 @@ def run_svgp(case, ctx: Ctx):
         close_bcast(ctx, "kl", obs["kl"], wkl, ktol, scale=scale_of(wkl))
     ctx.equal("variational_params_initialized", obs["initialized"], 1)
     ctx.set_nontrivial(VM.q_is_nontrivial(m, Sq) and case["n"] >= 2)
-    ctx.label(f"cell={strat}/{dist}", f"mode={mode}", *bp_labels(bp), f"init={case['init']}", f"xmode={case['xmode']}")
+    ctx.label(f"cell={strat}/{dist}", f"mode={mode}", *bp_labels(bp), f"init={case['init']}", f"xmode={case['xmode']}",
+              f"trace_mode={bool(case.get('trace'))}")
 
 
 # ---------------------------------------------------------------------------------------------------
